@@ -23,7 +23,9 @@ RULE = ("cases = (a) plans given to the real FirewallClient (0-40 subnets per fa
         "stdin read at every read index, also between the 128-byte pieces of long HOST lines (names 100-130, 250+); (c) every "
         "truncation point of rendered dialogues (after each line and inside lines); (d) malformed dialogues "
         "(field deleted/duplicated, signs, underscores, white space of every kind, non-ASCII bytes, over-long "
-        "lines, wrong keywords, unknown commands). Non-trivial = the helper got past the first line; distinct = "
+        "lines, wrong keywords, unknown commands). Every case runs at a verbosity level from the rotation "
+        "[0,0,3,0,2,0,13,1] shifted by the seed (13 = level 3 with a failing stderr); the level is part of the replay. "
+        "Non-trivial = the helper got past the first line; distinct = "
         "distinct byte stream / plan")
 MANIFEST = dict(
     level_text=("Machine-checked Lean 4 theorems over a statement-by-statement model of FirewallClient.start/"
@@ -64,13 +66,63 @@ AF_INET, AF_INET6 = 2, 10
 
 # ------------------------------------------------------------------ real writer
 
-class RecFile:
-    """pfile of the FirewallClient (what `s2.makefile('rwb')` returns): records writes, answers
-    READY to __init__ and STARTED to start()."""
+ROTATION = [0, 0, 3, 0, 2, 0, 13, 1]     # verbosity per case; 13 = level 3 with a stderr whose write() fails
+LEVEL = [0]
+CASE_NO = [0]
+
+
+def next_level(ctx, fixed=None):
+    """Verbosity is a dimension of every case: the level comes from ROTATION, shifted by the seed (so over
+    eight seeds every directed case has run at every level); it is stored in the replay case.  The oracle
+    does not know the level: what arrives must not depend on it."""
+    if fixed is None:
+        fixed = ROTATION[(CASE_NO[0] + ctx.seed) % len(ROTATION)]
+        CASE_NO[0] += 1
+    LEVEL[0] = fixed
+    ctx.hist('verbosity:%d' % fixed)
+    return fixed
+
+
+class EioStderr:
+    def write(self, s):
+        raise OSError(5, 'Input/output error')
+
+    def flush(self):
+        pass
+
+
+def v_stderr():
+    return EioStderr() if LEVEL[0] == 13 else io.StringIO()
+
+
+class at_level:
+    """`with at_level():` — sshuttle.helpers.verbose and sys.stderr set for the current case around a call
+    into the real code, restored afterwards."""
+
+    def __enter__(self):
+        import sshuttle.helpers as helpers
+        self.saved = (helpers, helpers.verbose, sys.stderr)
+        helpers.verbose = LEVEL[0] % 10
+        sys.stderr = v_stderr()
+
+    def __exit__(self, *a):
+        helpers, helpers.verbose, sys.stderr = self.saved[0], self.saved[1], self.saved[2]
+        return False
+
+
+class RecFile(io.BufferedIOBase):
+    """pfile of the FirewallClient (what `s2.makefile('rwb')` returns): a real buffered-file object
+    (so writelines() etc. exist) that records writes, answers READY to __init__ and STARTED to start()."""
 
     def __init__(self):
         self.written = b''
         self.answers = [b'READY nat\n']
+
+    def writable(self):
+        return True
+
+    def readable(self):
+        return True
 
     def write(self, b):
         self.written += bytes(b)
@@ -79,7 +131,7 @@ class RecFile:
     def flush(self):
         pass
 
-    def readline(self):
+    def readline(self, size=-1):
         return self.answers.pop(0) if self.answers else b'STARTED\n'
 
     def close(self):
@@ -124,9 +176,9 @@ def make_fw():
     client.ssubprocess = _Proxy(saved[0], Popen=lambda *a, **k: FakeProc())
     client.socket = _Proxy(saved[1], socketpair=lambda: (S(), S()))
     client.is_admin_user = lambda: True
-    sys.stderr = io.StringIO()
     try:
-        fw = client.FirewallClient('nat', False)
+        with at_level():
+            fw = client.FirewallClient('nat', False)
     finally:
         (client.ssubprocess, client.socket, client.is_admin_user, sys.stderr) = saved
     assert fw.pfile is pfile
@@ -149,7 +201,8 @@ class Session:
             fw.auto_nets.append(tuple(net))      # what onroutes does for every accepted route
         w0 = len(fw.pfile.written)
         try:
-            fw.start()
+            with at_level():
+                fw.start()
         except UnicodeEncodeError:
             return 'unicodeEncodeError', b''
         return 'ok', fw.pfile.written[w0:]
@@ -158,7 +211,8 @@ class Session:
         fw = self.fw
         w0 = len(fw.pfile.written)
         try:
-            fw.sethostip(name, ip)
+            with at_level():
+                fw.sethostip(name, ip)
         except AssertionError:
             return 'assert', b''
         return 'ok', fw.pfile.written[w0:]
@@ -237,8 +291,8 @@ class Run:
         firewall.rewrite_etc_hosts = lambda hostmap, port: run.maps.append((list(hostmap.items()), port))
         firewall.flush_systemd_dns_cache = lambda: None
         firewall.sshuttle_pid = None
-        helpers.verbose = 0
-        sys.stderr = io.StringIO()
+        helpers.verbose = LEVEL[0] % 10
+        sys.stderr = v_stderr()
         try:
             try:
                 firewall.main('rec', False)
@@ -429,10 +483,10 @@ def helper_case(kind, stream):
     return Case(kind, ['helper ' + hexb(stream)], [r.canon()], r.started or (r.error not in (None, 'fatal:ROUTES'))), r
 
 
-def check_plan(ctx, plan, hosts, logs, cuts):
+def check_plan(ctx, plan, hosts, logs, cuts, level=None):
     """Writer on the plan, the same client object on a HISTORY of host updates, helper on the written
     bytes, oracle, truncations.  An exception out of the real client code is a violation, not a crash."""
-    case = dict(stream='plan', plan=plan, hosts=[(hexb(n), hexb(i)) for n, i in hosts])
+    case = dict(stream='plan', plan=plan, hosts=[(hexb(n), hexb(i)) for n, i in hosts], level=next_level(ctx, level))
     pid = os.getpid()
     try:
         ses = Session()
@@ -489,7 +543,7 @@ def check_plan(ctx, plan, hosts, logs, cuts):
             logs.append(c2)
             if r2.calls and norm_calls(r2.calls) != exp_n:
                 ctx.violation('C13:truncation:setup-with-partial-plan',
-                              case=dict(stream='plan', plan=plan, hosts=[], cut=k),
+                              case=dict(stream='plan', plan=plan, hosts=[], cut=k, level=LEVEL[0]),
                               expected='no setup_firewall, or setup_firewall with the complete plan',
                               observed=dict(calls=[show_call(x) for x in r2.calls]))
             ctx.hist('trunc:' + ('setup' if r2.calls else (r2.error or 'noInput')))
@@ -530,11 +584,11 @@ class FaultyStdin:
         return self.data[:self.data.rfind(b'\n', 0, self.fault_pos) + 1]
 
 
-def check_faults(ctx, plan, hosts, logs, only=None):
+def check_faults(ctx, plan, hosts, logs, only=None, level=None):
     """Read faults at EVERY read index of the helper's stdin (also between the 128-byte pieces of long
     lines).  Oracle: every entry of every host map the helper acted on is one the client announced,
     verbatim; set-up happens only with the complete plan."""
-    case0 = dict(stream='fault', plan=plan, hosts=[(hexb(n), hexb(i)) for n, i in hosts])
+    case0 = dict(stream='fault', plan=plan, hosts=[(hexb(n), hexb(i)) for n, i in hosts], level=next_level(ctx, level))
     try:
         ses = Session()
         kind, data = ses.start(plan)
@@ -689,6 +743,7 @@ def gen_cases(ctx):
     # malformed dialogues
     for _ in range(ctx.scale(700, 12000)):
         plan = rand_plan(rng)
+        next_level(ctx)
         try:
             k, data = run_start(plan)
         except Exception:  # noqa  (reported with a replay by check_plan on the same kind of plan)
@@ -730,11 +785,12 @@ def compare(ctx, logs):
 def run(ctx):
     import sshuttle.helpers as helpers
     old = helpers.verbose
-    helpers.verbose = 0
+    CASE_NO[0] = 0
     try:
         logs = gen_cases(ctx)
     finally:
         helpers.verbose = old
+        LEVEL[0] = 0
     seen = set()
     for lg in logs:
         ctx.count()
@@ -758,12 +814,16 @@ def replay(ctx, rep):
                 auto=[tuple(x) for x in plan['auto']], ns=[tuple(x) for x in plan['ns']])
     hosts = [(common.unhex(n), common.unhex(i)) for n, i in case.get('hosts', [])]
     c2 = common.Ctx('C13', 'quick', 0)
-    if case.get('stream') == 'fault':
-        check_faults(c2, plan, hosts, [], only=(case['at'], case['kind']))
-    elif 'cut' in case:
-        check_plan(c2, plan, [], [], lambda d: [case['cut']])
-    else:
-        check_plan(c2, plan, hosts, [], lambda d: [])
+    lv = case.get('level', 0)
+    try:
+        if case.get('stream') == 'fault':
+            check_faults(c2, plan, hosts, [], only=(case['at'], case['kind']), level=lv)
+        elif 'cut' in case:
+            check_plan(c2, plan, [], [], lambda d: [case['cut']], level=lv)
+        else:
+            check_plan(c2, plan, hosts, [], lambda d: [], level=lv)
+    finally:
+        LEVEL[0] = 0
     if c2.violations:
         v = c2.violations[0]
         return True, '%s: observed %r' % (v['key'], v['observed'])
